@@ -168,6 +168,7 @@ type SV struct {
 	tup []SV    // components of tuple values
 	clo *closure
 	rng *SV // range iterator operand
+	content *Term // spec-function slice parameter: contents as an SMT array (index = off+i)
 }
 
 type closure struct {
